@@ -19,7 +19,7 @@ func init() {
 			if tier == "quick" {
 				return 2400
 			}
-			return 100000
+			return 40000
 		},
 		Rule: "case = one valid persisted root (both formats, int/uint64/string/bytes/struct/user keys, bf 2..16, top node with >= 2 keys where possible, heights 0..6, with and without a node cache that already holds the top node) and every applicable perturbation of (root, store, config): NodeFormat unknown / the other format; Link to a missing node; top-node bytes truncated at every offset (thorough) or 24 sampled offsets (quick), replaced by garbage, re-encoded by the independent encoder with one value dropped, one link slot too many, one too few, each adjacent key pair swapped; Height + 1..3; other branch factors; reversed KeyCompare; KeysLike of another type. An independent applicability predicate decides whether the statement demands rejection; if so LoadMast must return an error (a tree or a panic is a violation), otherwise the outcome is only recorded; non-trivial = a perturbation for which rejection is demanded; distinct by (root, perturbation)",
 		Assumptions: []string{
